@@ -65,7 +65,11 @@ class TDict(tuple):
     """tuple subclass with a __dict__"""
 
 
-EXTRA = [RDict, RList, RObj, LSub, SList, DSub, TSub, TDict]
+class SSub(set):
+    """set subclass with a __dict__"""
+
+
+EXTRA = [RDict, RList, RObj, LSub, SList, DSub, TSub, TDict, SSub]
 for _c in EXTRA:
     pyobjs.CLASSES.setdefault(_c.__name__, _c)
     if issubclass(_c, dict):
@@ -74,11 +78,13 @@ for _c in EXTRA:
         pyobjs.LAYOUT.setdefault(_c.__name__, 'list')
     elif issubclass(_c, tuple):
         pyobjs.LAYOUT.setdefault(_c.__name__, 'tuple')
+    elif issubclass(_c, (set, frozenset)):
+        pyobjs.LAYOUT.setdefault(_c.__name__, 'set')
     else:
         pyobjs.LAYOUT.setdefault(_c.__name__, 'inst')
 
 USED = ['dict', 'OrderedDict', 'list', 'tuple', 'set', 'frozenset', 'Obj', 'Obj2',
-        'RDict', 'RList', 'RObj', 'LSub', 'SList', 'DSub', 'TSub', 'TDict']
+        'RDict', 'RList', 'RObj', 'LSub', 'SList', 'DSub', 'TSub', 'TDict', 'SSub']
 
 
 def class_info():
@@ -122,11 +128,11 @@ class HeapGen:
         if lay == 'dict':
             return r.choice(['dict', 'dict', 'dict', 'OrderedDict', 'DSub', 'RDict'])
         if lay == 'list':
-            return r.choice(['list', 'list', 'list', 'SList', 'RList'] + (['LSub'] if q else []))
+            return r.choice(['list', 'list', 'list', 'SList', 'RList', 'LSub'])
         if lay == 'tuple':
-            return r.choice(['tuple', 'tuple', 'TSub'] + (['TDict'] if q else []))
+            return r.choice(['tuple', 'tuple', 'TSub', 'TDict'])
         if lay == 'set':
-            return r.choice(['set', 'frozenset'])
+            return r.choice(['set', 'frozenset', 'SSub'])
         return r.choice(['Obj', 'Obj', 'Obj2', 'RObj'])
 
     def node(self, depth):
@@ -339,9 +345,11 @@ def generate(rng, tier, scale, **focus):
 
 def corpus():
     out = []
-    # list / tuple subclasses that have a __dict__ (see KNOWN_FINDINGS / Props counter-example)
-    out.append({'heap': [{'k': 'list', 'c': 'LSub', 'v': [{'i': 1}, {'i': 2}]}], 'target': {'r': 0},
-                'spelling': {'text': '*'}, 'mut': None})
+    # list / tuple / set subclasses that have a __dict__ are walked by their items (repaired by 6678f8c)
+    for c, k in (('LSub', 'list'), ('TDict', 'tuple'), ('SSub', 'set')):
+        for t in ('*', '**'):
+            out.append({'heap': [{'k': k, 'c': c, 'v': [{'i': 1}, {'i': 2}]}], 'target': {'r': 0},
+                        'spelling': {'text': t}, 'mut': None})
     p = os.path.join(os.path.dirname(os.path.dirname(os.path.dirname(os.path.abspath(__file__)))),
                      'corpus', 'C14.jsonl')
     if os.path.exists(p):
@@ -519,8 +527,6 @@ def shrink(case):
 def classify(case, verdict):
     if verdict.get('timeout'):
         return None
-    if verdict.get('seq_with_dict'):
-        return 'sequence-subclass-with-dict-has-no-children'
     return None
 
 
